@@ -97,7 +97,9 @@ def net1 (t : Tr) : Int :=
   | .rm => -1
   | _ => 0
 
-def net (ts : List Tr) : Int := (ts.map net1).foldl (· + ·) 0
+def net : List Tr → Int
+  | [] => 0
+  | t :: ts => net1 t + net ts
 
 /-! ## refetch-and-merge -/
 
